@@ -86,10 +86,18 @@ func propC04(r *kernel.Run) {
 	if _, err := rotation.RotateRootCertificates(srv.Ctx, srv.Storage, srv.Opts()...); err != nil {
 		r.HarnessErr("roots: %v", err)
 	}
-	if tp.Draw(2) == 0 {
+	switch tp.Draw(4) {
+	case 0, 1:
 		r.Sleep(tp.DurLog(time.Hour, 13*24*time.Hour))
 		if _, err := rotation.RotateRootCertificates(srv.Ctx, srv.Storage, srv.Opts()...); err != nil {
 			r.HarnessErr("roots 2: %v", err)
+		}
+	case 2:
+		// shortly before the next root becomes valid: the enrollment below may straddle a promotion
+		if r0, err := types.LoadRootCertificates(contextBG, srv.Inner, srv.Opts()...); err == nil {
+			if d := time.Until(r0.Next.NotBefore.AsTime()) - tp.DurLog(time.Nanosecond, 20*time.Hour); d > 0 {
+				r.Sleep(d)
+			}
 		}
 	}
 	regW := newAead(r, "registration")
@@ -185,9 +193,19 @@ func propC04(r *kernel.Run) {
 			fetchOpts = append(fetchOpts, nodeenrollment.WithState(state))
 		}
 	}
+	// the roots as they were when the operator authorized the node: in that flow the node's record (and with it the two
+	// chains) is made then; in the other flows it is made by the fetch itself
+	rootsAtAuth, _ := types.LoadRootCertificates(contextBG, srv.Inner, srv.Opts()...)
 	// clock moves between authorization and fetch, inside the request's validity
 	if tp.Draw(2) == 0 {
 		r.Sleep(tp.DurLog(time.Nanosecond, 23*time.Hour))
+		if tp.Draw(2) == 0 {
+			// the server's periodic root rotation runs in between (and promotes the next root if it is due)
+			if _, err := rotation.RotateRootCertificates(srv.Ctx, srv.Storage, srv.Opts()...); err != nil {
+				r.HarnessErr("roots between authorization and fetch: %v", err)
+			}
+			r.Count("ops.root_rotation_between_authorization_and_fetch", 1)
+		}
 	}
 	// the network may lose responses: the honest node retries with the same stored key
 	lost := tp.Draw(3)
@@ -234,8 +252,15 @@ func propC04(r *kernel.Run) {
 	if len(inner.CertificateBundles) != 2 {
 		fail("chains", "wrong-number-of-chains", "got %d certificate chains, want one per server root (2)", len(inner.CertificateBundles))
 	}
-	checkIssuedLeaf(r, desc+" current chain", inner.CertificateBundles[0], roots.Current, roots.Next, nodePkix)
-	checkIssuedLeaf(r, desc+" next chain", inner.CertificateBundles[1], roots.Next, roots.Current, nodePkix)
+	chainRoots := roots
+	if flow == "operator" && rootsAtAuth != nil {
+		chainRoots = rootsAtAuth
+		if !bytes.Equal(rootsAtAuth.Current.PublicKeyPkix, roots.Current.PublicKeyPkix) {
+			r.Count("probe.roots_promoted_between_authorization_and_fetch", 1)
+		}
+	}
+	checkIssuedLeaf(r, desc+" current chain", inner.CertificateBundles[0], chainRoots.Current, chainRoots.Next, nodePkix)
+	checkIssuedLeaf(r, desc+" next chain", inner.CertificateBundles[1], chainRoots.Next, chainRoots.Current, nodePkix)
 
 	// ---- the stored server record equals what the response was built from
 	rec, err := types.LoadNodeInformation(contextBG, srv.Inner, kid, srv.Opts()...)
